@@ -107,7 +107,7 @@ pub fn alphabet(quick: bool, huge: bool) -> Vec<String> {
         // builtin names
         "u8", "u1", "u256", "bool", "Either", "Option", "List", "true", "false", "None", "Some", "Left", "Right", "witness", "param", "jet", "main", "unwrap", "unwrap_left", "assert", "panic", "dbg", "into", "fold", "for_while", "is_none", "list",
         // identifiers and literals
-        "a", "x1", "0", "1", "255", "256", "0x", "0b", "0x_", "0b_", "__", "1_", "_1", "00", "0x0", "0b2", "0xg", "0xff", "0b1",
+        "a", "x1", "0", "1", "255", "256", /* one above usize::MAX: never parses as a size, so it allocates nothing */ "18446744073709551616", "0x", "0b", "0x_", "0b_", "__", "1_", "_1", "00", "0x0", "0b2", "0xg", "0xff", "0b1",
         // whitespace-ish and non-ASCII
         "\r", "\n", "\t", "é", "嗨", "//", "/*", "*/",
     ];
